@@ -27,6 +27,7 @@ import pair
 from vlib import (Ctx, CorrResult, OracleResult, Failure, Disagreement, Hist, hx, unhx)
 from props import _c19_impl as I
 from props import _c19_gen as G
+from props import _c19_translate
 
 PROPERTY = 'C19'
 MANIFEST = {
@@ -40,7 +41,9 @@ MANIFEST = {
             'negation witness of the unrestricted statement = defect F10); for EVERY ordering of data/EOF/exit-status/'
             'CLOSE, loop turn, wait()/redirect moment and pause limit, wait() returns everything sent before CLOSE '
             '(exit_with_complete_output_partial, hypothesis: channel not torn down by a connection loss, with negation '
-            'witness = finding F16); drain contract. Model tied to the code by differential runs against real '
+            'witness = finding F33); redirect targets get all data and write_eof exactly once (redirect_copies_all, '
+            'redirect_eof_exactly_once); drain contract; the model\'s window/pause/loop tests proved equal to the '
+            'expressions regenerated from stream.py (T1). Model tied to the code by differential runs against real '
             'SSHReader/SSHClientProcess objects (direct, raw-peer over real channels both directions, transport '
             're-chunking) and the property itself evaluated on the real code against an independent specification.',
     'note': 'regex separators are modelled for alternations of literals (arbitrary re.Pattern objects are not); '
@@ -65,12 +68,20 @@ ASSUMPTIONS = [
     'peer respects the advertised receive window and sends no data after EOF / nothing after CLOSE (C08/C06 cover '
     'what happens otherwise; the model predicts it and the correspondence checks the prediction)',
     'readuntil theorems: fewer bytes than the pause limit arrive between separators (reading never paused)',
-    'exit_with_complete_output: the channel is closed by CLOSE, not torn down by connection loss (F16 otherwise)',
+    'exit_with_complete_output: the channel is closed by CLOSE, not torn down by connection loss (F33 otherwise)',
 ]
 
+
+
+def translate(ctx: Ctx) -> Dict[str, Any]:
+    """regenerate lean/AsyncsshModel/Gen/C19.lean (search-window start, pause test, read loop tests, drain test) from
+    the current asyncssh/stream.py; Props/C19.lean proves the model's definitions equal to them"""
+    return _c19_translate.translate(ctx)
+
+
 SIG_F10 = 'readuntil-multi-sep:separator-inside-another:result-depends-on-chunking'
-SIG_F16 = 'exit-status-with-truncated-output:connection-closed-while-reading-paused'
-SIG_F16B = 'wait-raises-assertion-error:connection-lost-while-eof-queued-behind-paused-data'
+SIG_F33 = 'exit-status-with-truncated-output:connection-closed-while-reading-paused'
+SIG_F33B = 'wait-raises-assertion-error:connection-lost-while-eof-queued-behind-paused-data'
 
 
 # ---------------------------------------------------------------------------
@@ -192,7 +203,7 @@ def correspondence(ctx: Ctx) -> CorrResult:
     # (1) direct: everything the session can be told, incl. soft EOF, feed_data, exceptions anywhere ----------
     rng = ctx.subrng('corr-direct')
     direct = []
-    for _ in range(ctx.n(2500, 30000)):
+    for _ in range(ctx.n(6000, 40000)):
         limit, toks, info = G.gen_reader_script(rng, 'direct')
         direct.append((limit, toks, rng.random() < 0.25))
     out = pair.run(_run_direct(direct), timeout=900)
@@ -203,7 +214,7 @@ def correspondence(ctx: Ctx) -> CorrResult:
     res.nontrivial += len(set(lines))
 
     # (2) real channel, raw peer: client stdout side and server stdin side ----------------------------------------
-    for mode, nq, nt in (('client', 250, 3000), ('server', 100, 1200)):
+    for mode, nq, nt in (('client', 600, 4000), ('server', 250, 1500)):
         rng = ctx.subrng('corr-wire-' + mode)
         cases = []
         for _ in range(ctx.n(nq, nt)):
@@ -222,7 +233,7 @@ def correspondence(ctx: Ctx) -> CorrResult:
     # (3) real channel with the transport bytes re-chunked (wake-up grouping out of the script's hands) --------------
     rng = ctx.subrng('corr-chunker')
     cases = []
-    while len(cases) < ctx.n(120, 1500):
+    while len(cases) < ctx.n(300, 2000):
         limit, toks, info = G.gen_reader_script(rng, 'client')
         if _determinate(toks) and len(info['data']) < 30:
             cases.append((4096, toks))
@@ -235,7 +246,7 @@ def correspondence(ctx: Ctx) -> CorrResult:
 
     # (4) process layer: raw peer plays every kind of ordering against a real SSHClientProcess -------------------
     rng = ctx.subrng('corr-proc')
-    pcases = [G.gen_proc_events(rng, rng.random() < 0.7) for _ in range(ctx.n(220, 2500))]
+    pcases = [G.gen_proc_events(rng, rng.random() < 0.7) for _ in range(ctx.n(500, 3000))]
 
     async def run_procs() -> List[str]:
         o = []
@@ -403,11 +414,10 @@ def make_delivery(rng: Any, chunks: List[bytes], ops: Sequence[Tuple]) -> List[T
         while gi < len(groups) and where[gi] == s:
             toks.append(('G', groups[gi]))
             gi += 1
-    # whatever was scheduled "before" the first call but belongs later still arrives: append leftovers
     while gi < len(groups):
         toks.append(('G', groups[gi]))
         gi += 1
-    # calls placed after the last group must still see EOF: move all groups scheduled after the last call forward
+    # a call placed before groups it needs is fed them by run_script(arrivals_independent=True)
     return toks
 
 
@@ -513,11 +523,11 @@ def oracle_spec(ctx: Ctx, res: OracleResult, hist: Hist) -> None:
                     ops.append(t)
             if ops:
                 cases.append((data, ops, G.all_chunkings(data) if 0 < len(data) <= 7 else None))
-    for _ in range(ctx.n(260, 4000)):
+    for _ in range(ctx.n(700, 5000)):
         data, ops = gen_spec_case(rng)
         cases.append((data, ops, None))
     # exhaustive chunkings of short streams (thorough / escalated)
-    for _ in range(ctx.n(12, 250)):
+    for _ in range(ctx.n(25, 300)):
         data, ops = gen_spec_case(rng, small=True)
         cases.append((data, ops, G.all_chunkings(data) if 0 < len(data) <= 7 else None))
 
@@ -604,7 +614,7 @@ def exit_predicate(evs: Sequence[Tuple], obs: Dict[str, Any]) -> Optional[Tuple[
     disconnected = any(e[0] == 'x' for e in evs)
     if isinstance(w, str):
         if 'AssertionError' in w:
-            return SIG_F16B, 'wait() raised AssertionError'
+            return SIG_F33B, 'wait() raised AssertionError'
         return 'wait-raises:' + w, 'wait() raised ' + w
     if w is None:
         return None
@@ -616,7 +626,7 @@ def exit_predicate(evs: Sequence[Tuple], obs: Dict[str, Any]) -> Optional[Tuple[
         what = ('exit status %r / signal %r reported with stdout %d of %d bytes, stderr %d of %d bytes'
                 % (st, sig, len(got_out), len(sent_out), len(err), len(sent_err)))
         if disconnected:
-            return SIG_F16, what
+            return SIG_F33, what
         return 'exit-status-with-incomplete-output:ordering-of-data-eof-status-close', what
     return None
 
@@ -654,7 +664,7 @@ EXIT_CORPUS = [
     (8, [('s', 3), ('d', b'AAAA'), ('D', b'EE'), ('d', b'BBBB'), ('d', b'CC'), ('c',), ('t',), ('w',), ('t',)]),
     (8, [('t',), ('w',), ('t',), ('d', b'AAAA'), ('d', b'BBBB'), ('d', b'CC'), ('e',), ('S', 9), ('c',), ('t',)]),
 ]
-F16_CORPUS = [
+F33_CORPUS = [
     (8, [('d', b'AAAA'), ('d', b'BBBB'), ('d', b'CC'), ('s', 3), ('e',), ('c',), ('t',), ('x', 0), ('t',), ('w',), ('t',)]),
     (8, [('d', b'AAAA'), ('d', b'BBBB'), ('d', b'CC'), ('e',), ('t',), ('x', 1), ('t',), ('w',), ('t',)]),
 ]
@@ -717,7 +727,7 @@ async def run_exit_api(window: int, pieces: List[Tuple[str, bytes]], status: Tup
 def oracle_exit(ctx: Ctx, res: OracleResult, hist: Hist) -> None:
     rng = ctx.subrng('oracle-exit')
     cases: List[Tuple[int, List[Tuple], str]] = [(l, e, 'corpus') for l, e in EXIT_CORPUS]
-    cases += [(l, e, 'corpus-disconnect') for l, e in F16_CORPUS]
+    cases += [(l, e, 'corpus-disconnect') for l, e in F33_CORPUS]
     # every conformant ordering of a small multiset, wait() first and wait() last
     base = [('d', b'AAAA'), ('d', b'BBB'), ('D', b'EE'), ('e',), ('s', 7), ('c',)]
     ords = conformant_orderings(base)
@@ -739,10 +749,10 @@ def oracle_exit(ctx: Ctx, res: OracleResult, hist: Hist) -> None:
                 else:
                     evs.append((x,))
             cases.append((int(parts[1]), evs, 'suspect'))
-    for _ in range(ctx.n(60, 1200)):
+    for _ in range(ctx.n(150, 1500)):
         l, e = gen_exit_case(rng, False)
         cases.append((l, e, 'random'))
-    for _ in range(ctx.n(12, 200)):
+    for _ in range(ctx.n(25, 250)):
         l, e = gen_exit_case(rng, True)
         cases.append((l, e, 'random-disconnect'))
 
@@ -768,13 +778,13 @@ def oracle_exit(ctx: Ctx, res: OracleResult, hist: Hist) -> None:
 
     # servers written against the public API, through real flow control and transport re-chunking
     api_cases = []
-    for i in range(ctx.n(40, 600)):
+    for i in range(ctx.n(80, 700)):
         window = rng.choice([16, 32, 64, 256])
         pieces = [('D' if rng.random() < 0.25 else 'd', bytes([97 + (j % 26)]) * rng.randint(1, window))
                   for j in range(rng.randint(1, 6))]
         status = ('s', rng.choice([0, 1, 3, 255])) if rng.random() < 0.8 else ('S', rng.choice([2, 9, 15]))
         api_cases.append((window, pieces, status, rng.random() < 0.5, False))
-    # orderly server shutdown after the command, client collects late (F16 through the public API only)
+    # orderly server shutdown after the command, client collects late (F33 through the public API only)
     for i in range(ctx.n(6, 60)):
         window = rng.choice([16, 32, 64])
         api_cases.append((window, [('d', b'a' * window), ('d', b'b' * (window // 2))], ('s', 3), True, True))
@@ -792,12 +802,12 @@ def oracle_exit(ctx: Ctx, res: OracleResult, hist: Hist) -> None:
             if isinstance(w, str):
                 sig, desc = ('wait-raises:' + w, 'wait() raised ' + w)
                 if 'AssertionError' in w:
-                    sig = SIG_F16B
+                    sig = SIG_F33B
             elif w is not None and (w[0] is not None or w[1] is not None):
                 if (w[2], w[3]) != obs['sent']:
                     desc = ('exit status %r / signal %r reported with stdout %d of %d bytes, stderr %d of %d bytes'
                             % (w[0], w[1], len(w[2]), len(obs['sent'][0]), len(w[3]), len(obs['sent'][1])))
-                    sig = SIG_F16 if disc else 'exit-status-with-incomplete-output:public-api-server'
+                    sig = SIG_F33 if disc else 'exit-status-with-incomplete-output:public-api-server'
             elif w is None and not disc:
                 sig, desc = 'wait-never-returns:public-api-server', 'wait() did not return'
             if sig:
@@ -987,7 +997,7 @@ def oracle_redirect(ctx: Ctx, res: OracleResult, hist: Hist) -> None:
     rng = ctx.subrng('oracle-redirect')
     tmpdir = ctx.tmpdir()
     cases = []
-    for i in range(ctx.n(40, 500)):
+    for i in range(ctx.n(72, 540)):
         kind = REDIRECT_KINDS[i % len(REDIRECT_KINDS)]
         window = rng.choice([8, 16, 64, 1024])
         n = rng.choice([0, 1, window - 1, window, window + 1, 3 * window, rng.randint(0, 200)])
@@ -1049,7 +1059,7 @@ async def run_drain_case(window: int, total: int, how: str) -> Optional[str]:
                    'client had done nothing' % (obs['drain'], obs['size_before'])
         obs['phase'] = how
         if how == 'read':
-            got = await asyncio.wait_for(p.stdout.readexactly(total), 30)
+            got = await asyncio.wait_for(p.stdout.readexactly(total), 12)
             await pair.settle(30)
             if obs.get('drain') != 'returned':
                 return 'client read everything but drain() is %r' % (obs.get('drain'),)
@@ -1086,7 +1096,7 @@ async def run_drain_case(window: int, total: int, how: str) -> Optional[str]:
 def oracle_drain(ctx: Ctx, res: OracleResult, hist: Hist) -> None:
     rng = ctx.subrng('oracle-drain')
     cases = []
-    for i in range(ctx.n(9, 90)):
+    for i in range(ctx.n(12, 48)):
         how = ['read', 'close', 'cut'][i % 3]
         total = rng.choice([100, 70000, 70000, 140000])
         cases.append((rng.choice([64, 4096]), total, how))
@@ -1169,7 +1179,7 @@ def replay(ctx: Ctx, rep: Dict[str, Any]) -> List[Failure]:
         if isinstance(w, str):
             return [Failure('wait-raises:' + w, w, r)]
         if w is not None and (w[0] is not None or w[1] is not None) and (w[2], w[3]) != obs['sent']:
-            return [Failure(SIG_F16 if r['disconnect'] else 'exit-status-with-incomplete-output:public-api-server',
+            return [Failure(SIG_F33 if r['disconnect'] else 'exit-status-with-incomplete-output:public-api-server',
                             'stdout %d of %d bytes' % (len(w[2]), len(obs['sent'][0])), r)]
         return []
     if kind == 'redirect':
